@@ -38,6 +38,12 @@ claimed = {
  "C07": dict(design="5/C07",
    text="Bounded symbolic model checking of webSessionFactory (NewWebSessionFactory, Generate, Check, splitCheckToken) with AES-GCM as an ideal AEAD and a symbolic clock: for two instances and the strings listed in the bounds (issued tokens, splices within and across instances, single-character changes, truncations, extensions at text and decoded level, arbitrary text), acceptance implies that the decoded nonce and ciphertext are those of a token issued by this instance, within the lifetime, with the issued identity; arbitrary plaintexts sealed with the factory's own AEAD are accepted only if they parse per the reference grammar inside the time window; nonces are fresh random values; issuing writes no pre-existing state.",
    note="Trusted: ideal-AEAD model (INT-CTXT), crypto/rand freshness, symbolic clock with 1 s guard band, lifetime 3 s instead of 600 s (the constant is outside this check). Data races are outside the model; the write-set oracle gives thread-safety of issuing by absence of shared writes."),
+ "C04": dict(design="5/C04",
+   text="Bounded symbolic model checking of the wiring of every in-process frontend to the store request interface: saslauthd callback, LDAP Bind handler (name cut at the first '@'), HTTP basic-auth and API-authenticate handlers and (*Store).Authenticate are driven with arbitrary credential bytes against a scripted store behind the real channel interface: the store is asked exactly once with byte-identical name and password and the frontend accepts iff the store accepted without error; the SASL transport delivers fields up to 256 bytes byte-identical to the callback.",
+   note="Trusted: paired model of net/http basic-auth, JSON document model, harness goroutine as dispatcher. Outside: third-party byte-level parsers, listener start-up, the CLI authenticate command (cli.Context / NewStore wiring not encoded)."),
+ "C06": dict(design="5/C06",
+   text="Bounded symbolic model checking of the HTTP API handlers as a one-step authorisation property: for each endpoint, every credential kind (none, garbage, admin/user/empty-user session, expired, other-instance, tampered) and request-body shape within the bounds, with an arbitrary scripted store behind the real Store interface, a management request reaches the store only if the reference authorisation predicate holds and carries exactly the request's arguments; every other request gets a non-success status, discloses no list and sends no mutating store request; a token is issued only after a successful authentication and names that user and the store-reported flag.",
+   note="Trusted: JSON document model honouring the struct tags of the loaded source, ideal AEAD, symbolic clock (lifetime 3 s), harness dispatcher. 'Store unchanged' is established as 'no mutating store request sent'. Routing, HTTP methods and TLS are outside."),
 }
 NA_DEFAULT = "check not built yet (framework under construction); see DESIGN.md section 5 for the plan"
 na_reason = {}
